@@ -237,7 +237,7 @@ pub fn run(ctx: &Ctx) {
         }
         let mut r = Rng::derive(ctx.seed, 0xc11, prog);
         let ops = *r.pick(&[20usize, 60, 120, maxops]);
-        let bias = Bias { sets: true, servers: true, regions: true, failing_ops: is_os(), max_chans: 6, ops };
+        let bias = Bias { sets: true, servers: true, regions: true, failing_ops: is_os(), failing_serialize: true, max_chans: 6, ops };
         let mut it = Interp::new(ctx.seed, prog, bias);
         let mut problems: Vec<(String, Value)> = Vec::new();
         // run step by step so that inheritance can be probed in the middle
